@@ -9,6 +9,12 @@ R4.2 DiskStorage.write: envelope file, then meta file, then return the id
 R4.3 metadata updates are read-modify-write through the atomic writer only
 R4.4 the start-up scan isolates per-id failures and discovers by *.env
 R4.5 removal deletes the discovery key and tolerates absent files
+R4.6 the file helpers have no path that skips the disk: write_env/write_meta
+     publish through the atomic writer on every path, read_meta/read_env
+     return what they read from the file on every path (no second copy of
+     the metadata that a crash forgets)
+R4.7 who-may-delete: delete_env / delete_meta are called by
+     DiskStorage.remove only
 """
 from __future__ import annotations
 
@@ -52,6 +58,12 @@ def run(e: Engine, rep: Report):
              'the .env suffix only')
     rep.rule('R4.5', 'remove(): env file and meta file are both deleted, '
              'each tolerant of absence')
+    rep.rule('R4.6', 'DiskOps.write_env / write_meta call AioFile.dump / '
+             'pickle_dump on every path to their return; DiskOps.read_meta / '
+             'read_env return the value of AioFile.load / pickle_load on '
+             'every path')
+    rep.rule('R4.7', 'DiskOps.delete_env / delete_meta are referenced only '
+             'from DiskStorage.remove')
     rep.not_decided += ['POSIX rename atomicity itself', 'page-cache '
                         'durability (the property speaks of process death)',
                         'pickle fidelity (C20)']
@@ -60,6 +72,8 @@ def run(e: Engine, rep: Report):
     r43(e, rep)
     r44(e, rep)
     r45(e, rep)
+    r46(e, rep)
+    r47(e, rep)
     rep.floor('R4.1', 6, 'file-system write sites / ordering obligations')
 
 
@@ -302,6 +316,33 @@ def r44(e: Engine, rep: Report):
                       'breaks: the scan stops at the first damaged message',
                       loc=h.loc(), reason='falls through to the next '
                       'iteration')
+    # no exception raised explicitly below the per-id read leaves the scan
+    g2 = e.build(e.method_ctx(DISK, 'load'),
+                 inline=e.inline_all(only_modules=[MOD]), max_depth=6)
+    live = dataflow.reachable(g2, g2.entry)
+    for n in g2.of_kind('stmt'):
+        if not isinstance(n.ast, ast.Raise) or n.id not in live:
+            continue
+        names = [fr.ctx.func.name for fr in n.frame.chain()]
+        if 'read_meta' not in names:
+            continue
+        rep.evaluations += 1
+        pth = dataflow.find_path(
+            g2, n, lambda x: x is g2.raise_exit,
+            avoid=lambda x: x.kind == 'handler' and
+            x.frame is g2.entry.frame)
+        rep.check(pth is None, 'R4.4', where,
+                  '`%s` below read_meta stays inside the scan'
+                  % ' '.join(ast.unparse(n.ast).split())[:50],
+                  'an exception raised explicitly while reading one '
+                  'message\'s meta file (%s in %s) is not covered by the '
+                  'handler inside the scan loop: the first message whose '
+                  'meta file is missing aborts load() and every later '
+                  'acknowledged message is never loaded after a restart'
+                  % (' '.join(ast.unparse(n.ast).split())[:40],
+                     n.frame.ctx.func.qname), loc=n.loc(),
+                  reason='caught by the per-id handler',
+                  witness=dataflow.render_path(pth, 10) if pth else None)
     ctx = e.method_ctx(OPS, 'get_ids')
     src = ast.unparse(ctx.func.node)
     rep.evaluations += 1
@@ -364,3 +405,111 @@ def r45(e: Engine, rep: Report):
                       'crash in the middle of a removal the repeated '
                       'removal raises instead of completing',
                       loc=n.loc(), reason='try/except OSError')
+
+
+def r46(e: Engine, rep: Report):
+    for meth, prims, kind in (('write_env', ('dump', 'pickle_dump'), 'w'),
+                              ('write_meta', ('dump', 'pickle_dump'), 'w'),
+                              ('read_meta', ('load', 'pickle_load'), 'r'),
+                              ('read_env', ('load', 'pickle_load'), 'r')):
+        ctx = e.method_ctx(OPS, meth)
+        g = e.build(ctx, inline=e.inline_same_self(), max_depth=3,
+                    raises=lambda b, n, r: set())
+        where = ctx.func.qname
+        rep.functions.add(where)
+        io = [n for n in g.calls() if e.call_name(n) in prims and any(
+            t.startswith(AIO + '.') for t in e.targets(n))]
+        rep.evaluations += 1
+        if not io:
+            rep.bad('R4.6', where, '%s goes to the file' % meth,
+                    '%s no longer calls the AioFile %s primitive'
+                    % (meth, '/'.join(prims)), loc=ctx.func.loc())
+            continue
+        if kind == 'w':
+            before = dataflow.must_events_before(
+                g, lambda n: ['io'] if n in io else [])
+            st = before.get(g.exit.id)
+            rep.check(st is not None and 'io' in st, 'R4.6', where,
+                      '%s publishes on every path' % meth,
+                      '%s can return without having written the file: the '
+                      'update exists in memory only and is gone after a '
+                      'crash (attempt counts, due times and delivered '
+                      'marks revert)' % meth, loc=ctx.func.loc(),
+                      reason='AioFile.%s on every path to the return'
+                      % '/'.join(prims))
+        else:
+            rets = [n for n in g.of_kind('stmt')
+                    if isinstance(n.ast, ast.Return) and
+                    n.frame is g.entry.frame]
+            before = dataflow.must_events_before(
+                g, lambda n: ['io'] if n in io else [])
+
+            def from_file(v, frame, depth=0):
+                """v (evaluated in frame) is the value an AioFile read
+                returned: the read call itself, a same-object helper all of
+                whose returns are, or a local bound only to such a value."""
+                if depth > 4 or v is None:
+                    return False
+                if isinstance(v, ast.Call):
+                    if any(v is n.ast for n in io):
+                        return True
+                    ent = [n for n in g.nodes if n.kind == 'call_enter' and
+                           n.ast is v and n.frame is frame]
+                    if ent:
+                        cf = [r2 for r2 in g.of_kind('stmt')
+                              if isinstance(r2.ast, ast.Return) and
+                              r2.frame.parent is frame and
+                              r2.frame.call is v]
+                        return bool(cf) and all(
+                            from_file(r2.ast.value, r2.frame, depth + 1)
+                            for r2 in cf)
+                    return False
+                if isinstance(v, ast.Name):
+                    defs = [s2 for s2 in g.of_kind('stmt')
+                            if s2.frame is frame and
+                            isinstance(s2.ast, ast.Assign) and any(
+                                isinstance(t, ast.Name) and t.id == v.id
+                                for t in s2.ast.targets)]
+                    return bool(defs) and all(
+                        from_file(d.ast.value, frame, depth + 1)
+                        for d in defs)
+                return False
+            for r in rets:
+                rep.evaluations += 1
+                v = r.ast.value
+                direct = from_file(v, r.frame) and \
+                    'io' in (before.get(r.id) or ())
+                rep.check(direct, 'R4.6', where,
+                          '%s returns what is in the file' % meth,
+                          '%s can return `%s`, which is not what it just '
+                          'read from the file: a second copy of the '
+                          'metadata lives in memory, updates made through '
+                          'it need not reach the disk' % (
+                              meth, ast.unparse(v) if v else None),
+                          loc=r.loc(), reason='value of AioFile.%s'
+                          % '/'.join(prims))
+
+
+def r47(e: Engine, rep: Report):
+    n = 0
+    for f in e.p.functions.values():
+        if not f.module.name.startswith('slimta'):
+            continue
+        for x in walk_own(f.node):
+            if isinstance(x, ast.Attribute) and x.attr in (
+                    'delete_env', 'delete_meta') and isinstance(
+                        x.ctx, ast.Load):
+                n += 1
+                rep.evaluations += 1
+                rep.check(f.qname == DISK + '.remove', 'R4.7', f.qname,
+                          'use of %s' % x.attr,
+                          '%s deletes message files outside '
+                          'DiskStorage.remove: a file of a message that is '
+                          'still being written (envelope published, meta '
+                          'not yet) or still queued is deleted, the '
+                          'acknowledged message is gone after the next '
+                          'restart' % f.qname, loc=f.loc(x),
+                          reason='only DiskStorage.remove deletes')
+    if n < 2:
+        rep.error('anchor vanished: uses of delete_env/delete_meta (%d < 2)'
+                  % n)
